@@ -147,6 +147,35 @@ def implied(atoms, want):
 # may-store summaries (for killing literals across calls)
 # --------------------------------------------------------------------------
 
+def _sig_params(t):
+    """'int (*const)(const T *, U *)' -> ['const T *', 'U *']"""
+    i = t.rfind("(")
+    j = t.rfind(")")
+    if i < 0 or j < i:
+        return None
+    inner = t[i + 1:j].strip()
+    if not inner or inner == "void":
+        return []
+    out, depth, cur = [], 0, ""
+    for ch in inner:
+        if ch == "," and depth == 0:
+            out.append(cur.strip())
+            cur = ""
+            continue
+        if ch in "([":
+            depth += 1
+        elif ch in ")]":
+            depth -= 1
+        cur += ch
+    out.append(cur.strip())
+    return out
+
+
+def _const_pointee(t):
+    t = t.strip()
+    return t.startswith("const ") and t.endswith("*") and t.count("*") == 1
+
+
 def maystore_summaries(P):
     """Function -> set of field names it (transitively) may store to."""
     if getattr(P, "_maystore", None) is not None:
@@ -658,16 +687,34 @@ class XGraph(object):
             kv.add(e["n"])
         elif k in ("call", "atomic"):
             kc.add(e["id"])
-            for a in e.get("a", []):
+            pt = self._param_types(e) if k == "call" else None
+            for ai, a in enumerate(e.get("a", [])):
                 a = strip_casts(a)
                 if isinstance(a, dict) and a.get("k") == "un" and a.get("op") == "&":
                     v = base_var(a["x"])
                     x = strip_casts(a["x"])
                     if v and isinstance(x, dict) and x.get("k") == "var":
+                        if pt is not None and ai < len(pt) and _const_pointee(pt[ai]):
+                            continue      # passed as pointer-to-const: the callee only reads it
                         kv.add(v)
             if k == "call":
                 for g in self.P.callees(self.fn, e):
                     kfc.update(ms.get(g, ()))
+
+    def _param_types(self, e):
+        """Parameter types of the callee(s) of a call event, when known: from the
+        function-pointer type of an indirect call, or from the definitions of
+        the resolved callees (all must agree); else None."""
+        fp = e.get("fp")
+        if isinstance(fp, dict):
+            return _sig_params(fp.get("t") or "")
+        gs = self.P.callees(self.fn, e)
+        if not gs:
+            return None
+        sigs = {tuple(p["t"] for p in g.params) for g in gs}
+        if len(sigs) != 1:
+            return None
+        return list(sigs.pop())
 
     def _apply_kill(self, atoms, kill):
         if len(kill) == 3:
